@@ -394,9 +394,9 @@ pub fn run(ctx: &Ctx) -> Report {
     st = st.merge(st_h);
 
     // end to end on both carriers (header: also with surrounding spaces)
-    let st_e = par_sweep(n * 3, |i, st| {
-        let s = &strings[(i / 3) as usize];
-        let variant = i % 3;
+    let st_e = par_sweep(n * 4, |i, st| {
+        let s = &strings[(i / 4) as usize];
+        let variant = i % 4;
         let reference = iso::parse(s);
         let inst = match reference {
             Iso::Accept(i) => i,
@@ -411,6 +411,11 @@ pub fn run(ctx: &Ctx) -> Report {
         plan.instant = inst;
         plan.date_text = if variant == 1 { format!("  {} ", s) } else { s.clone() };
         e2e::rekey(&mut plan, e2e::SECRET, "us-east-1", "service");
+        if variant == 3 {
+            // a Date header holding a well-formed, fresh ISO-8601 timestamp next to the X-Amz-Date under test: the
+            // X-Amz-Date header is the one that counts, well-formed or not
+            plan.headers.push(("Date".into(), inst.compact().into_bytes()));
+        }
         let built = build(&plan);
         let wire = WireReq::from_wire(&built.wire);
         if carrier == Carrier::Header && variant == 1 && s.trim() != s {
@@ -490,7 +495,7 @@ pub fn run(ctx: &Ctx) -> Report {
 
     Report {
         stats: st,
-        rule: "every value 00..99 of month, day, hour, minute, second, offset hour and offset minute (basic and extended form); 9 years x boundary instants; every day 00..32 of every month of 2015, 2016, 1900, 2000 in two forms; the full product of boundary values of month/day (10 pairs) x hour (5) x minute (5) x second (5, incl. 60 and 61) x 10 zones; all 2^5 separator combinations; every offset hh(00..99) x mm(00..99) x sign (basic; extended for all in thorough); 12 zone designators; all 2^5 combinations of blank-padded / one-digit fields in four layouts; fractions of 0..12 and 13..10000 digits with '.' and ','; every string at edit distance 1 (insert/delete/substitute over 23 characters incl. 3 non-ASCII) from six bases (thorough: also every pair of substitutions and substitution+insertion on two bases); five well-formed timestamps followed by one of 10 separators (',', ', ', blank, ';', '/', tab, none, ...) and a second timestamp — itself again once or twice, or another one; the same five with each character written as a percent-escape (the text of a value decoded once too rarely — on the query carrier it arrives as %25XX) and with truncated escapes appended; every ordered pair over ~70 related strings (six well-formed timestamps and their look-alikes: separators removed / added, zone dropped, case, blanks, one digit changed) parsed back to back on one thread; each string is evaluated through the unstable API (value and string-to-sign line compared with the reference parser) and end to end on the header carrier (bare and space-padded) and the query carrier; two or three validations whose requests differ only in the timestamp are multiplexed on one thread against a provider that is Pending first, in every order of polls (each verified against its own timestamp line). states = distinct reference instants + reject class; non-trivial = distinct strings".into(),
+        rule: "every value 00..99 of month, day, hour, minute, second, offset hour and offset minute (basic and extended form); 9 years x boundary instants; every day 00..32 of every month of 2015, 2016, 1900, 2000 in two forms; the full product of boundary values of month/day (10 pairs) x hour (5) x minute (5) x second (5, incl. 60 and 61) x 10 zones; all 2^5 separator combinations; every offset hh(00..99) x mm(00..99) x sign (basic; extended for all in thorough); 12 zone designators; all 2^5 combinations of blank-padded / one-digit fields in four layouts; fractions of 0..12 and 13..10000 digits with '.' and ','; every string at edit distance 1 (insert/delete/substitute over 23 characters incl. 3 non-ASCII) from six bases (thorough: also every pair of substitutions and substitution+insertion on two bases); five well-formed timestamps followed by one of 10 separators (',', ', ', blank, ';', '/', tab, none, ...) and a second timestamp — itself again once or twice, or another one; the same five with each character written as a percent-escape (the text of a value decoded once too rarely — on the query carrier it arrives as %25XX) and with truncated escapes appended; every ordered pair over ~70 related strings (six well-formed timestamps and their look-alikes: separators removed / added, zone dropped, case, blanks, one digit changed) parsed back to back on one thread; each string is evaluated through the unstable API (value and string-to-sign line compared with the reference parser) and end to end on the header carrier (bare, space-padded, and next to a Date header holding a well-formed fresh timestamp) and the query carrier; two or three validations whose requests differ only in the timestamp are multiplexed on one thread against a provider that is Pending first, in every order of polls (each verified against its own timestamp line). states = distinct reference instants + reject class; non-trivial = distinct strings".into(),
         bounds: json!({"strings": n}),
         exhaustive: true,
         assumptions: vec![
